@@ -20,6 +20,7 @@ class QuicConnectionProtocol(asyncio.DatagramProtocol):
         self._connected_waiter: Optional[asyncio.Future[None]] = None
         self._loop = loop
         self._ping_waiters: dict[int, asyncio.Future[None]] = {}
+        self._processing_events = False
         self._quic = quic
         self._stream_readers: dict[int, asyncio.StreamReader] = {}
         self._timer: Optional[asyncio.TimerHandle] = None
@@ -121,6 +122,11 @@ class QuicConnectionProtocol(asyncio.DatagramProtocol):
         for data, addr in self._quic.datagrams_to_send(now=self._loop.time()):
             self._transport.sendto(data, addr)
 
+        # Building datagrams can emit events too: a connection ID is reported
+        # as issued when its NEW_CONNECTION_ID frame is written. Handle them
+        # now, so that a server routes the new connection ID right away.
+        self._process_events()
+
         # re-arm timer
         timer_at = self._quic.get_timer()
         if self._timer is not None and self._timer_at != timer_at:
@@ -199,6 +205,16 @@ class QuicConnectionProtocol(asyncio.DatagramProtocol):
         self.transmit()
 
     def _process_events(self) -> None:
+        if self._processing_events:
+            # called from an event handler: the outer loop handles the rest
+            return
+        self._processing_events = True
+        try:
+            self._process_pending_events()
+        finally:
+            self._processing_events = False
+
+    def _process_pending_events(self) -> None:
         event = self._quic.next_event()
         while event is not None:
             if isinstance(event, events.ConnectionIdIssued):
